@@ -333,10 +333,16 @@ func concScripts(r *Rng, c *Config, nClients int, tier string) []Step {
 
 // concExecOnce runs the given clients' scripts under the concurrent scheduler
 // in one world and returns each client's transcript and the pick sequence.
+// lastExtSeen: scheduling points of the last concExecOnce at which a library
+// goroutine was blocked outside the simulation (see concSched.settle)
+var lastExtSeen int
+
 func concExecOnce(t *testing.T, plan Plan, only int, schedSeed uint64) (map[int][]string, []string, string) {
 	trs := map[int][]string{}
 	var picks []string
 	errStr := ""
+	extSeen := 0
+	defer func() { lastExtSeen = extSeen }()
 	var hp interface{}
 	func() {
 		defer func() {
@@ -349,6 +355,14 @@ func concExecOnce(t *testing.T, plan Plan, only int, schedSeed uint64) (map[int]
 			defer w.Close()
 			cs := w.sched.(*concSched)
 			cs.rng = NewRng(schedSeed)
+			if len(plan.Extra) > 0 {
+				var ex struct {
+					Hold string `json:"hold"`
+				}
+				if json.Unmarshal(plan.Extra, &ex) == nil {
+					cs.holdSite = ex.Hold
+				}
+			}
 			w.rand.perTask = func() *Rng {
 				if tk := cs.lookup(goid()); tk != nil {
 					return tk.rng
@@ -389,7 +403,10 @@ func concExecOnce(t *testing.T, plan Plan, only int, schedSeed uint64) (map[int]
 				errStr = err.Error()
 			}
 			// let stragglers finish
-			synctest.Wait()
+			if cs.extBlocked == 0 {
+				synctest.Wait()
+			}
+			extSeen = cs.extSeen
 			for _, c := range clients {
 				c.finishTranscript()
 				trs[c.n] = c.log
@@ -439,6 +456,9 @@ func c20Exec(t *testing.T, plan Plan, keepTrace bool) *RunResult {
 	}
 	sortInts(ids)
 	res.Stats.Reach["c20_picks"] += len(picks)
+	if lastExtSeen > 0 {
+		res.Stats.Reach["c20_points_with_goroutine_blocked_outside_simulation"] += lastExtSeen
+	}
 	res.Stats.Reach["c20_clients"] += len(ids)
 	for _, p := range picks {
 		if strings.HasPrefix(p, "lib") {
@@ -500,8 +520,23 @@ func c20Exec(t *testing.T, plan Plan, keepTrace bool) *RunResult {
 func c20Generate(seed uint64, tier string) Plan {
 	r := NewRng(seed)
 	n := 2 + r.Intn(steps(tier, 3, 5))
+	burst := r.Chance(1, 8)
+	if burst {
+		// many clients ask for a mail at about the same time
+		n = 9 + r.Intn(4)
+	}
 	cfg := concConfig(r.Fork(1), n)
 	plan := Plan{Prop: "C20", Seed: seed, Tier: tier, Mode: "c20", Cfg: cfg}
+	if burst {
+		plan.Cfg.ensureModules("recover")
+		plan.Cfg.MailNoGoroutine = false
+		// ... and the mail system is slow: sends are released last
+		plan.Extra = json.RawMessage(`{"hold":"mail.send"}`)
+		for i := 0; i < n; i++ {
+			plan.Steps = append(plan.Steps, Step{Kind: "recover_start", B: i}, Step{Kind: "recover_end", B: i, Str: map[string]string{"have": "0"}})
+		}
+		return plan
+	}
 	plan.Steps = concScripts(r.Fork(2), &cfg, n, tier)
 	return plan
 }
